@@ -24,20 +24,24 @@ relies on) -/
 def WFneeded (rs : List Resource) (nb : List (Addr × List Addr)) : Prop :=
   ∀ e ∈ nb, HasTy rs e.1 .account ∧ ∀ x ∈ e.2, HasTy rs x .asset ∨ HasTy rs x .monetary
 
-/-- `st'` extends `st`: the resource table grew by literals only, the variable index is unchanged, and the
-well-formedness of the tables is kept -/
+/-- `NeededBalances[a]` contains `x` -/
+def InNeeded (nb : List (Addr × List Addr)) (a x : Addr) : Prop := ∃ e ∈ nb, e.1 = a ∧ x ∈ e.2
+
+/-- `st'` extends `st`: the resource table grew by literals only, the variable index is unchanged, the
+well-formedness of the tables is kept, and no needed balance is forgotten -/
 structure Ext (st st' : CState) : Prop where
   res : ∃ suf, st'.resources = st.resources ++ suf ∧ ∀ r ∈ suf, r.isLit = true
   vars : st'.varIdx = st.varIdx
   wf : WFres st.resources → WFres st'.resources
   wfn : WFneeded st.resources st.needed → WFneeded st'.resources st'.needed
+  mono : ∀ a x, InNeeded st.needed a x → InNeeded st'.needed a x
 
-theorem Ext.refl (st : CState) : Ext st st := ⟨⟨[], by simp⟩, rfl, id, id⟩
+theorem Ext.refl (st : CState) : Ext st st := ⟨⟨[], by simp⟩, rfl, id, id, fun _ _ h => h⟩
 
 theorem Ext.trans {a b c : CState} (h1 : Ext a b) (h2 : Ext b c) : Ext a c := by
-  obtain ⟨⟨s1, e1, l1⟩, v1, w1, n1⟩ := h1
-  obtain ⟨⟨s2, e2, l2⟩, v2, w2, n2⟩ := h2
-  refine ⟨⟨s1 ++ s2, by rw [e2, e1, List.append_assoc], ?_⟩, v2.trans v1, w2 ∘ w1, n2 ∘ n1⟩
+  obtain ⟨⟨s1, e1, l1⟩, v1, w1, n1, m1⟩ := h1
+  obtain ⟨⟨s2, e2, l2⟩, v2, w2, n2, m2⟩ := h2
+  refine ⟨⟨s1 ++ s2, by rw [e2, e1, List.append_assoc], ?_⟩, v2.trans v1, w2 ∘ w1, n2 ∘ n1, fun a x h => m2 a x (m1 a x h)⟩
   intro r hr
   rcases List.mem_append.mp hr with h | h
   · exact l1 r h
@@ -76,7 +80,7 @@ theorem WFneeded.append {rs : List Resource} {nb : List (Addr × List Addr)} (h 
 /-- a state change that leaves resources, variables and needed balances alone -/
 theorem Ext.of_eq {st st' : CState} (hr : st'.resources = st.resources) (hv : st'.varIdx = st.varIdx)
     (hn : st'.needed = st.needed) : Ext st st' :=
-  ⟨⟨[], by simp [hr]⟩, hv, by rw [hr]; exact id, by rw [hr, hn]; exact id⟩
+  ⟨⟨[], by simp [hr]⟩, hv, by rw [hr]; exact id, by rw [hr, hn]; exact id, by rw [hn]; exact fun _ _ h => h⟩
 
 theorem Ext.addSources (st : CState) (l : List Addr) : Ext st (addSources st l) :=
   Ext.of_eq rfl rfl rfl
@@ -107,10 +111,56 @@ theorem setNeeded1_wf {rs : List Resource} {nb : List (Addr × List Addr)} {acc 
       exact ⟨ha, by intro x hx'; simp only [List.mem_singleton] at hx'; subst hx'; exact hx⟩
 
 /-- `setNeededBalances` with account addresses and an asset / monetary address keeps the tables well-formed -/
+theorem setNeeded1_mono {nb : List (Addr × List Addr)} {acc addr a x : Addr} (h : InNeeded nb a x) :
+    InNeeded (setNeeded1 nb acc addr) a x := by
+  obtain ⟨e, he, h1, h2⟩ := h
+  unfold setNeeded1
+  split
+  · by_cases hc : e.1 == acc
+    · refine ⟨(e.1, insertAddr e.2 addr), ?_, h1, ?_⟩
+      · exact List.mem_map.mpr ⟨e, he, by simp [hc]⟩
+      · unfold insertAddr; split
+        · exact h2
+        · exact List.mem_append_left _ h2
+    · exact ⟨e, List.mem_map.mpr ⟨e, he, by simp [hc]⟩, h1, h2⟩
+  · exact ⟨e, List.mem_append_left _ he, h1, h2⟩
+
+theorem setNeeded1_self (nb : List (Addr × List Addr)) (acc addr : Addr) : InNeeded (setNeeded1 nb acc addr) acc addr := by
+  unfold setNeeded1
+  split
+  · rename_i h
+    rw [List.any_eq_true] at h
+    obtain ⟨e, he, hc⟩ := h
+    have hc' : e.1 = acc := by simpa using hc
+    refine ⟨(e.1, insertAddr e.2 addr), List.mem_map.mpr ⟨e, he, by simp [hc]⟩, hc', ?_⟩
+    unfold insertAddr; split
+    · rename_i h'; simpa using h'
+    · simp
+  · exact ⟨(acc, [addr]), by simp, rfl, by simp⟩
+
+theorem foldl_setNeeded1_mono {l : List Addr} {nb : List (Addr × List Addr)} {addr a x : Addr} (h : InNeeded nb a x) :
+    InNeeded (l.foldl (fun nb acc => setNeeded1 nb acc addr) nb) a x := by
+  induction l generalizing nb with
+  | nil => exact h
+  | cons y ys ih => exact ih (setNeeded1_mono h)
+
+/-- after `setNeededBalances(accounts, addr)`, every one of the accounts needs `addr` -/
+theorem setNeeded_mem (st : CState) {l : List Addr} (addr : Addr) {acc : Addr} (h : acc ∈ l) :
+    InNeeded (setNeeded st l addr).needed acc addr := by
+  show InNeeded (l.foldl (fun nb acc => setNeeded1 nb acc addr) st.needed) acc addr
+  generalize st.needed = nb
+  induction l generalizing nb with
+  | nil => cases h
+  | cons y ys ih =>
+    simp only [List.foldl_cons]
+    rcases List.mem_cons.mp h with h' | h'
+    · subst h'; exact foldl_setNeeded1_mono (setNeeded1_self nb acc addr)
+    · exact ih h' _
+
 theorem Ext.setNeeded (st : CState) (l : List Addr) (a : Addr)
     (hl : ∀ x ∈ l, HasTy st.resources x .account) (ha : HasTy st.resources a .asset ∨ HasTy st.resources a .monetary) :
     Ext st (setNeeded st l a) := by
-  refine ⟨⟨[], by simp [Num.setNeeded]⟩, rfl, id, ?_⟩
+  refine ⟨⟨[], by simp [Num.setNeeded]⟩, rfl, id, ?_, fun _ _ h => foldl_setNeeded1_mono h⟩
   intro h
   show WFneeded st.resources (l.foldl (fun nb acc => setNeeded1 nb acc a) st.needed)
   generalize st.needed = nb at h
@@ -217,7 +267,7 @@ theorem allocRes_ok {st st' : CState} {r : Resource} {a : Addr} (hl : r.isLit = 
     intro st' h
     obtain ⟨ha, hs⟩ := appendResource_ok h
     subst ha; subst hs
-    exact ⟨⟨⟨[r], rfl, by simpa using hl⟩, rfl, fun w => w.append_lit hl hw, fun w => w.append _⟩, by simp⟩
+    exact ⟨⟨⟨[r], rfl, by simpa using hl⟩, rfl, fun w => w.append_lit hl hw, fun w => w.append _, fun _ _ h => h⟩, by simp⟩
   cases r with
   | const v =>
     simp only at h
